@@ -146,7 +146,7 @@ func TestB2C05Rewire(t *testing.T) {
 			data, _ := c05Rewired(slot, v)
 			cases++
 			desc := fmt.Sprintf("slot=%d value=%q", slot, v)
-			start := time.Now()
+			start := b2CPU()
 			func() {
 				defer func() {
 					if r := recover(); r != nil {
@@ -165,8 +165,8 @@ func TestB2C05Rewire(t *testing.T) {
 					fi.MakeReader(nil)
 				}
 			}()
-			if d := time.Since(start); d > 5*time.Second {
-				t.Errorf("B2-FAIL slow rewire %s: %v for a %d byte file", desc, d, len(data))
+			if d := b2CPU() - start; d > 5*time.Second {
+				t.Errorf("B2-FAIL slow rewire %s: %v of CPU time for a %d byte file", desc, d, len(data))
 			}
 		}
 	}
